@@ -48,8 +48,9 @@ def prog(variant: int, k: int, nm: int, o1: int, i1: int, v1: int, o2: int, i2: 
     deps = VARIANTS[variant]
     with untraced():
         Top = _mk_top(deps)
-        mids = [Node(), Node(), Node()]
-        leaves = [Node(), Node()]
+        # explicit, identical names: with 'a.param' the auto-generated names would make every replacement a change
+        mids = [Node(name='cfg'), Node(name='cfg'), Node(name='cfg')]
+        leaves = [Node(name='leaf'), Node(name='leaf')]
         t = Top(a=mids[0])
     cur = 0                       # index of the attached mid, or None
     sub = [None, None, None]      # index of the leaf attached at mids[i].b
@@ -69,7 +70,7 @@ def prog(variant: int, k: int, nm: int, o1: int, i1: int, v1: int, o2: int, i2: 
             elif d == 'a.b.x':
                 out.append((True, lv[sub[cur]][0]) if sub[cur] is not None else (False, None))
             else:   # a.param: every parameter of the attached object
-                out.append((True, (cur, mv[cur][0], mv[cur][1], sub[cur])))
+                out.append((True, (0, mv[cur][0], mv[cur][1], sub[cur])))       # names are identical: only x, y, b count
         return out
 
     for step, (o, i, v) in enumerate(((o1, i1, v1), (o2, i2, v2), (o3, i3, v3), (o4, i4, v4))[:k]):
